@@ -1,2 +1,120 @@
-(** C02 — placeholder until the assembler theorems land; replaced below. *)
-From Sameold Require Import Base.Bytes.
+(** C02 — Two of three bursts suffice; a single header burst never does.
+    Statements about the assembler model over operation histories (burst arrivals and idle
+    polls with symbolic times); only [exact] of lemmas proved in Proofs/AssemblerP.v. *)
+From Sameold Require Import Base.Bytes Model.Header Model.Combiner Model.Assembler
+  Proofs.CombinerP Proofs.AssemblerP.
+
+(** Two intact copies of a canonical header and ONE ARBITRARY burst (any bytes, any length)
+    in ANY of the three positions; all times symbolic, inside the history window; polling
+    between bursts two and three stops before the hold of burst two runs out.  Exactly one
+    StartOfMessage, text [H], counters as in C03, released by the first idle poll at or after
+    682 symbols after the third burst. *)
+Theorem C02_header_two_of_three_any_third : forall p H X h0 prev0 t1 t2 t3 polls1 polls2 polls3,
+  header_new H = Ok h0 -> h_text h0 = H -> forallb is_allowed_byte H = true ->
+  (length H <= MAX_MESSAGE_LENGTH)%nat -> all_bytes X = true -> X <> [] ->
+  nd h0 (prune_previous prev0 t1) ->
+  t1 <= t2 -> t2 <= t3 -> t3 < t1 + MAX_HISTORY_DURATION ->
+  Forall (fun n => n < t1 + MAX_HISTORY_DURATION) polls1 ->
+  Forall (fun n => n < t2 + MAX_INTERBURST_SYMBOLS /\ n < t1 + MAX_HISTORY_DURATION) polls2 ->
+  som_reports (fst (asm_run (mkAsm [] None prev0)
+        (OBurst (nth_burst p H X 0) t1 :: map OIdle polls1
+         ++ OBurst (nth_burst p H X 1) t2 :: map OIdle polls2
+         ++ OBurst (nth_burst p H X 2) t3 :: map OIdle polls3)))
+  = match find (fun n => t3 + MAX_INTERBURST_SYMBOLS <=? n) polls3 with
+    | Some tf => [(tf, mkHeader H (h_offset_time h0) (parity_spec H (trunc X)) (voting_spec H (trunc X)))]
+    | None => []
+    end.
+Proof. exact header_two_of_three. Qed.
+Print Assumptions C02_header_two_of_three_any_third.
+
+(** one of the three bursts lost altogether (any one: the two survivors may be 1 s or 2 s apart) *)
+Theorem C02_header_two_bursts_only : forall H h0 prev0 t1 t2 polls1 polls2,
+  header_new H = Ok h0 -> h_text h0 = H -> forallb is_allowed_byte H = true ->
+  (length H <= MAX_MESSAGE_LENGTH)%nat -> nd h0 (prune_previous prev0 t1) ->
+  t2 < t1 + MAX_HISTORY_DURATION ->
+  Forall (fun n => n < t1 + MAX_HISTORY_DURATION) polls1 ->
+  som_reports (fst (asm_run (mkAsm [] None prev0)
+        (OBurst H t1 :: map OIdle polls1 ++ OBurst H t2 :: map OIdle polls2)))
+  = match find (fun n => t2 + MAX_INTERBURST_SYMBOLS <=? n) polls2 with
+    | Some tf => [(tf, mkHeader H (h_offset_time h0) (parity_spec H []) (voting_spec H []))]
+    | None => []
+    end.
+Proof. exact header_two_bursts. Qed.
+Print Assumptions C02_header_two_bursts_only.
+
+(** the same for whatever the link layer delivered (junk after the header, bit errors), stated
+    on what the bursts combine to: this is the form the correspondence runs instantiate *)
+Theorem C02_three_bursts_abstract : forall prev0 b1 b2 b3 t1 t2 t3 polls1 polls2 polls3 h,
+  b1 <> [] -> b2 <> [] -> b3 <> [] -> nd h (prune_previous prev0 t1) -> h_text h <> PREFIX_MESSAGE_END ->
+  t2 < t1 + MAX_HISTORY_DURATION -> t3 < t1 + MAX_HISTORY_DURATION -> t1 <= t2 -> t2 <= t3 ->
+  combine [trunc b1; trunc b2; trunc b3] = Some (Ok (SOM h)) ->
+  votes_le [trunc b1; trunc b2] h ->
+  Forall (fun n => n < t1 + MAX_HISTORY_DURATION) polls1 ->
+  Forall (fun n => n < t2 + MAX_INTERBURST_SYMBOLS /\ n < t1 + MAX_HISTORY_DURATION) polls2 ->
+  som_reports (fst (asm_run (mkAsm [] None prev0)
+        (OBurst b1 t1 :: map OIdle polls1 ++ OBurst b2 t2 :: map OIdle polls2
+           ++ OBurst b3 t3 :: map OIdle polls3)))
+  = match find (fun n => t3 + MAX_INTERBURST_SYMBOLS <=? n) polls3 with
+    | Some tf => [(tf, h)]
+    | None => []
+    end.
+Proof. exact three_bursts_one_som. Qed.
+Print Assumptions C02_three_bursts_abstract.
+
+(** a header heard in ONE burst is never reported: any burst, any polling before and after *)
+Theorem C02_single_burst_never_reported : forall prev0 b t polls1 polls2,
+  som_reports (fst (asm_run (mkAsm [] None prev0)
+     (map OIdle polls1 ++ OBurst b t :: map OIdle polls2))) = [].
+Proof. exact one_burst_no_som. Qed.
+Print Assumptions C02_single_burst_never_reported.
+
+(** one, two or three bursts that all begin "NN" combine to an EndOfMessage (fast EOM from a
+    single burst included) *)
+Theorem C02_trailer_bursts_combine_to_eom : forall bs,
+  (1 <= length bs <= 3)%nat -> Forall starts_NN bs -> combine bs = Some (Ok EOM).
+Proof. exact combine_NN. Qed.
+Print Assumptions C02_trailer_bursts_combine_to_eom.
+
+(** the trailer on a quiet channel: exactly one message in the whole history, the
+    EndOfMessage, returned by the call that delivers the FIRST burst *)
+Theorem C02_trailer_exactly_one_eom : forall prev0 n1 n2 n3 t1 t2 t3 polls1 polls2 polls3,
+  starts_NN n1 -> starts_NN n2 -> starts_NN n3 ->
+  (forall now, is_not_duplicate (prune_previous prev0 now) EOM = true) ->
+  t1 <= t2 -> t2 <= t3 -> t3 < t1 + MAX_HISTORY_DURATION ->
+  Forall (fun n => n < t1 + MAX_HISTORY_DURATION) polls1 ->
+  Forall (fun n => n < t1 + MAX_HISTORY_DURATION) polls2 ->
+  msgs (fst (asm_run (mkAsm [] None prev0)
+        (OBurst n1 t1 :: map OIdle polls1 ++ OBurst n2 t2 :: map OIdle polls2
+           ++ OBurst n3 t3 :: map OIdle polls3)))
+  = [(t1, Ok EOM)].
+Proof. exact trailer_one_eom. Qed.
+Print Assumptions C02_trailer_exactly_one_eom.
+
+(** non-vacuity: a concrete canonical header meets the hypotheses; the ordinary six-burst
+    transmission evaluates to one StartOfMessage and one EndOfMessage *)
+Theorem C02_hypotheses_satisfiable :
+  (exists h0, header_new str_A = Ok h0 /\ h_text h0 = str_A /\ forallb is_allowed_byte str_A = true
+              /\ (length str_A <= MAX_MESSAGE_LENGTH)%nat)
+  /\ report_kinds (fst (asm_run asm_init
+       (tx_ops 1000 [(SEC,str_A);(SEC,str_A);(SEC,str_A);(1300,str_N);(SEC,str_N);(SEC,str_N)] 800)))
+     = [(4637, 1); (6096, 3)].
+Proof. exact (conj str_A_canonical normal_transmission). Qed.
+Print Assumptions C02_hypotheses_satisfiable.
+
+(** KNOWN FINDINGS — the full statement is false of the faithful model on these histories
+    (each replayed on the implementation by the check):
+    F2: header bursts 1 and 3 + trailer bursts 1 and 2, no voice gap: EndOfMessage never reported *)
+Theorem C02_F2_refuted :
+  report_kinds (fst (asm_run asm_init
+    (tx_ops 1000 [(SEC,str_A);(SEC+SEC+(16+42)*8,str_A);(SEC,str_N);(SEC,str_N)] 6000)))
+  = [(5318, 1)].
+Proof. exact F2_eom_refused_while_som_pending. Qed.
+Print Assumptions C02_F2_refuted.
+
+(** F8: a second EndOfMessage from stale history *)
+Theorem C02_F8_refuted :
+  report_kinds (fst (asm_run asm_init
+    (tx_ops 1000 [(SEC,str_N);(SEC,str_N);(SEC,str_N);(4272,str_B)] 800)))
+  = [(1681, 3); (7779, 3)].
+Proof. exact F8_second_eom_from_stale_history. Qed.
+Print Assumptions C02_F8_refuted.
